@@ -1173,7 +1173,7 @@ def inline_calls(prog, fn, want, depth=2, crates=None):
                 g = c.fn(t['fn']) or c.fn(path)
                 if g is not None:
                     break
-            if g is None or g.kind != 'fn' or g.path == fn.path or g.path in inlined and _round > 0 and False:
+            if g is None or g.kind not in ('fn', 'method') or g.path == fn.path:
                 continue
             if g.argc != len(t['args']) or not want(g):
                 continue
